@@ -98,7 +98,10 @@ func extractFromPath(path *Path, data []byte, optFuncs ...DecodeOptionFunc) ([][
 	ctx.Buf = src
 	ctx.Option.Flags = 0
 	ctx.Option.Flags |= decoder.PathOption
-	ctx.Option.Path = path.path
+	// evaluation moves the path's cursor: work on a copy, so that the caller's Path stays as it
+	// was built whatever happens (an error half-way, another goroutine using the same Path)
+	evalPath := *path.path
+	ctx.Option.Path = &evalPath
 	for _, optFunc := range optFuncs {
 		optFunc(ctx.Option)
 	}
